@@ -163,11 +163,18 @@ def check_pset_lossless(c, b, p, kind):
     except Exception:
         c.fail("accepted a PSET whose key-value framing is malformed", {"op": "pset.lossless", "kind": kind, "bytes": hx(b)[:20000]})
         return
+    own_iss = [bool(i.issue_value or i.issue_commitment) for i in p.inputs]
     try:
         out = p.serialize()
     except Exception as e:
-        # a version-0 output seeded with a raw commitment cannot be written in v2 etc. — compared with the model instead
-        c.tally("pset:unserialisable")
+        # Proved (C18X.pset_v2_reserialise, C18Z.pset_v0_reserialise): whatever PSET.parse accepts can be written again,
+        # except a version-0 PSET whose input scope holds PSETv2 issuance fields of its own (arbitrary bytes that the
+        # transaction writer may refuse). Outside that region a failure of serialize() is a violation, not a skip.
+        if p.version != 2 and any(own_iss):
+            c.tally("pset:unserialisable-v0-own-issuance")
+            return
+        c.fail("accepted PSET cannot be re-serialised (%s)" % type(e).__name__,
+               {"op": "pset.lossless", "kind": kind, "bytes": hx(b)[:20000]})
         return
     new = gl.split_scopes(out)
     rec = {"op": "pset.lossless", "kind": kind, "bytes": hx(b)[:20000], "reserialized": hx(out)[:20000]}
@@ -200,13 +207,28 @@ def check_pset_lossless(c, b, p, kind):
             c.fail("write_to emits a key twice in scope %d" % si, dict(rec, scope=si))
             return
     g = dict(orig[0]).get(b"\x00")
-    if g is not None and any(i.issue_value or i.issue_commitment for i in p.inputs):
-        # a version-0 ("elements") PSET whose input scope carries the PSETv2 issuance fields is outside the format's
-        # domain: embit rebuilds the transaction from the scope, the global transaction says otherwise. Pair-level
-        # losslessness was checked above; transaction identity is not demanded (model and code still compared).
+    if g is not None and any(own_iss):
+        # A version-0 ("elements") PSET whose input scope carries PSETv2 issuance fields of its own: by design these take
+        # precedence over the issuance of the global transaction (C18Z.pset_v0_own_issuance_overrides), so the rebuilt
+        # transaction may differ from the global one — but ONLY in the issuance of exactly those inputs.
         c.tally("pset:v0-with-v2-issuance-fields")
-        return
-    if g is not None:
+        try:
+            gt, pt = LTransaction.parse(g), p.tx
+            same = (gt.version == pt.version and gt.locktime == pt.locktime and len(gt.vin) == len(pt.vin)
+                    and [o.serialize() for o in gt.vout] == [o.serialize() for o in pt.vout])
+            for a, d, own in zip(gt.vin, pt.vin, own_iss):
+                if own:
+                    same = same and (a.txid, a.vout, a.sequence, a.is_pegin) == (d.txid, d.vout, d.sequence, d.is_pegin) \
+                        and d.script_sig.data == b""
+                else:
+                    same = same and a.serialize() == d.serialize()
+        except Exception:
+            same = False
+        if not same:
+            c.fail("version-0 PSET with own issuance fields: reconstructed transaction differs from the global one "
+                   "outside the issuance of the inputs that carry such fields",
+                   {"op": "pset.v0tx", "kind": kind, "bytes": hx(b)[:20000], "global_tx": hx(g)})
+    elif g is not None:
         try:
             got = p.tx.serialize()
         except Exception:
@@ -214,9 +236,51 @@ def check_pset_lossless(c, b, p, kind):
         if got != g:
             c.fail("version-0 PSET: reconstructed transaction differs from the global transaction",
                    {"op": "pset.v0tx", "kind": kind, "bytes": hx(b)[:20000], "global_tx": hx(g), "tx": hx(got)})
+        else:
+            c.tally("pset:v0-tx-kept")
+            # the independent Elements wire spec, applied to the transaction embit rebuilt from the scopes
+            c.expect("ltx.wire " + gl.ltx_tokens(p.tx), "ok " + hx(g), {"kind": kind, "bytes": hx(b)[:20000]})
     p2 = impl_pset_parse(out)
     if p2 is None or p2.serialize() != out:
-        c.fail("PSET: serialise-then-parse is not the identity", rec)
+        # (known finding C18-KF1, classifier below: only a version-0 PSET whose input scope holds MALFORMED issuance
+        # fields of its own is excused; this check used to be skipped for every PSET with such fields)
+        c.fail("PSET: serialise-then-parse is not the identity", dict(rec, sub="ser-parse-identity"))
+    elif g is not None and any(own_iss):
+        c.tally("pset:v0-own-issuance-roundtrips")
+
+
+def _malformed_own_issuance(i):
+    """input scope with issuance fields of its own that `LInputScope.asset_issuance` copies into the transaction although
+    no Elements transaction can hold them: a commitment that is not 33 bytes with prefix 08/09, a nonce / entropy that
+    is not 32 bytes"""
+    if not (i.issue_value or i.issue_commitment):
+        return False
+
+    def bad_commit(x):
+        return bool(x) and (len(x) != 33 or x[0] not in (8, 9))
+
+    def bad32(x):
+        return bool(x) and len(x) != 32
+    return bad_commit(i.issue_commitment) or bad_commit(i.token_commitment) or bad32(i.issue_nonce) or bad32(i.issue_entropy)
+
+
+def v0_own_issuance_malformed(rec):
+    """classifier of known finding C18-KF1 — as narrow as possible: the serialise-then-parse check, on a version-0 PSET,
+    at least one input scope with malformed issuance fields of its own, and the written global transaction is the
+    thing embit cannot read back"""
+    if rec.get("op") != "pset.lossless" or rec.get("sub") != "ser-parse-identity":
+        return False
+    try:
+        p = PSET.parse(bytes.fromhex(rec["bytes"]))
+        if p.version == 2 or not any(_malformed_own_issuance(i) for i in p.inputs):
+            return False
+        g = dict(gl.split_scopes(p.serialize())[0]).get(b"\x00")
+        try:
+            return LTransaction.parse(g).serialize() != g
+        except Exception:
+            return True
+    except Exception:
+        return False
 
 
 def check_pset_bytes(c, kind, b, lossless=True):
@@ -261,6 +325,49 @@ def v0_with_issuance(rng):
     return gl.build_pset(tx, 0, [[]], [[]])
 
 
+def v0_full(rng):
+    """version-0 PSET whose global transaction has several inputs / outputs with issuance, peg-in flag, confidential
+    outputs with nonce, AND non-empty scopes (liquid fields, unknown keys, utxos); now and then an input scope with
+    PSETv2 issuance fields of its own (these take precedence by design)"""
+    from embit.liquid.transaction import AssetIssuance
+    vin, vout = [], []
+    for _ in range(rng.randrange(1, 4)):
+        r = rng.random()
+        iss = None
+        if r > 0.25:
+            amt = rng.choice([5, 10**8, 2**64 - 1, bytes([rng.choice([8, 9])]) + gen.rbytes(rng, 32)])
+            tok = rng.choice([None, 1, bytes([rng.choice([8, 9])]) + gen.rbytes(rng, 32)])
+            iss = AssetIssuance(rng.choice([b"\x00" * 32, gen.rbytes(rng, 32)]), gen.rbytes(rng, 32), amt, tok)
+        vin.append(LTransactionInput(gen.rbytes(rng, 32), rng.choice([0, 1, 5, 2**30 - 1]), Script(b""),
+                                     rng.choice([0, 0xFFFFFFFD, 0xFFFFFFFF]), is_pegin=rng.random() < 0.4, asset_issuance=iss))
+    for _ in range(rng.randrange(1, 4)):
+        spk = Script(gen.rbytes(rng, rng.choice([0, 22, 34])))
+        if rng.random() < 0.4:
+            vout.append(LTransactionOutput(gen.rbytes(rng, 32), rng.getrandbits(rng.choice([1, 40, 63])), spk))
+        else:
+            vout.append(LTransactionOutput(bytes([rng.choice([0x0a, 0x0b])]) + gen.rbytes(rng, 32),
+                                           bytes([rng.choice([0x08, 0x09])]) + gen.rbytes(rng, 32), spk,
+                                           bytes([rng.choice([2, 3])]) + gen.rbytes(rng, 32) if rng.random() < 0.8 else None))
+    tx = LTransaction(rng.choice([0, 1, 2]), vin, vout, rng.choice([0, 1, 500000000]))
+    in_maps = []
+    for _ in vin:
+        m = gl.gen_in_pairs(rng, 0)
+        r = rng.random()
+        if r < 0.3:
+            m.append((b"\x01", gl.gen_lout(rng, False).serialize()))
+        elif r < 0.4:
+            m.append((b"\x00", gl.gen_ltx(rng, 2, 3).serialize()))
+        if rng.random() < 0.12:
+            m.append((gl.IN_KEYS["issue_value"][0], rng.choice([0, 9, 2**64 - 1]).to_bytes(8, "little")))
+        if rng.random() < 0.08:
+            m.append((gl.IN_KEYS["issue_commitment"][0], rng.choice([b"", bytes([8]) + gen.rbytes(rng, 32), gen.rbytes(rng, 5)])))
+        rng.shuffle(m)
+        in_maps.append(m)
+    out_maps = [gl.gen_out_pairs(rng, 0, True) for _ in vout]
+    ge = [(b"\xfb", (0).to_bytes(4, "little"))] if rng.random() < 0.2 else []
+    return gl.build_pset(tx, 0, in_maps, out_maps, ge)
+
+
 def v0_signed(rng):
     """version-0 PSET whose global transaction carries a witness (audit2 B-4, repaired by fixes/b4.diff: refused)"""
     from embit.liquid.transaction import TxInWitness, TxOutWitness, Proof, RangeProof
@@ -291,6 +398,13 @@ def explore_pset(c, n, budget):
                 check_pset_bytes(c, "generated-" + kind, m)
         if k % 60 == 59:
             c.flush()
+    for k in range(max(6, n // 8)):
+        b = v0_full(c.rng)
+        check_pset_bytes(c, "v0-full", b)
+        if k % 4 == 0:
+            for kind, m in gl.pset_mutations(c.rng, b, max(4, budget // 4)):
+                check_pset_bytes(c, "v0-full-" + kind, m)
+    c.flush()
     for _ in range(max(2, n // 40)):
         check_pset_bytes(c, "v0-issuance", v0_with_issuance(c.rng))
         b = v0_signed(c.rng)
@@ -909,6 +1023,7 @@ def run(tier, seed):
         "checked against the library directly, not through verify()",
     ]
     c.build_and_audit()
+    c.classifiers["v0_own_issuance_malformed"] = v0_own_issuance_malformed
     corpus(c)
     if tier == "quick":
         explore_ltx(c, 150, True, 24)
